@@ -23,9 +23,18 @@ static struct cat_object at;
 static pthread_mutex_t mtx = PTHREAD_MUTEX_INITIALIZER;
 static pthread_t last_owner; static bool have_owner; static long handovers, lock_calls;      /* protected by mtx */
 static atomic_long contended;
+static int lock_may_fail;      /* --timedlock: lock() gives up under contention and reports failure, as an RTOS "take with timeout" would */
+static atomic_long lock_failures;
 static int mx_lock(void)
 {
-        if (pthread_mutex_trylock(&mtx) != 0) { atomic_fetch_add(&contended, 1); pthread_mutex_lock(&mtx); }
+        if (pthread_mutex_trylock(&mtx) != 0) {
+                atomic_fetch_add(&contended, 1);
+                if (lock_may_fail) {
+                        int got = 0;
+                        for (int i = 0; i < 3 && !got; i++) { sched_yield(); got = pthread_mutex_trylock(&mtx) == 0; }
+                        if (!got) { atomic_fetch_add(&lock_failures, 1); return 1; }
+                } else pthread_mutex_lock(&mtx);
+        }
         pthread_t me = pthread_self();
         if (have_owner && !pthread_equal(me, last_owner)) handovers++;
         last_owner = me; have_owner = true; lock_calls++;
@@ -36,7 +45,7 @@ static struct cat_mutex_interface mutex = { .lock = mx_lock, .unlock = mx_unlock
 
 static atomic_long accepted[MAXP], refused[MAXP], delivered[MAXP];
 static atomic_int producers_running;
-static atomic_long hold_exits_ok, hold_exits_nothold, queries;
+static atomic_long hold_exits_ok, hold_exits_nothold, queries, odd_status;
 /* service-thread-only state */
 static uint64_t rs; static uint64_t srnd(void) { rs ^= rs >> 12; rs ^= rs << 25; rs ^= rs >> 27; return rs * 2685821657736338717ULL; }
 static uint8_t input[1 << 16]; static size_t inlen, inpos; static long out_bytes, write_refusals; static unsigned p_write = 70;
@@ -78,6 +87,7 @@ static void *producer(void *vp)
                         else if (k == 1) st = cat_trigger_unsolicited_read(&at, &cmds[pa->id]);
                         else st = cat_trigger_unsolicited_test(&at, &cmds[pa->id]);
                         if (st == CAT_STATUS_OK) atomic_fetch_add(&accepted[pa->id], 1); else if (st == CAT_STATUS_ERROR_BUFFER_FULL) atomic_fetch_add(&refused[pa->id], 1);
+                        else if (st != CAT_STATUS_ERROR_MUTEX_LOCK) atomic_fetch_add(&odd_status, 1);      /* a failed lock must be reported as such and nothing may have been queued */
                         left--;
                 } else if (r < 70) { (void)cat_is_unsolicited_buffer_full(&at); atomic_fetch_add(&queries, 1); }
                 else if (r < 80) { (void)cat_is_busy(&at); atomic_fetch_add(&queries, 1); }
@@ -93,7 +103,7 @@ static void *producer(void *vp)
 int main(int argc, char **argv)
 {
         uint64_t seed = 1; int P = 4; long T = 2000;
-        for (int i = 1; i + 1 < argc; i += 2) { if (!strcmp(argv[i], "--seed")) seed = strtoull(argv[i + 1], 0, 10); else if (!strcmp(argv[i], "--producers")) P = atoi(argv[i + 1]); else if (!strcmp(argv[i], "--triggers")) T = atol(argv[i + 1]); }
+        for (int i = 1; i + 1 < argc; i += 2) { if (!strcmp(argv[i], "--seed")) seed = strtoull(argv[i + 1], 0, 10); else if (!strcmp(argv[i], "--producers")) P = atoi(argv[i + 1]); else if (!strcmp(argv[i], "--triggers")) T = atol(argv[i + 1]); else if (!strcmp(argv[i], "--timedlock")) lock_may_fail = atoi(argv[i + 1]); }
         if (P < 1 || P > MAXP) return 2;
         rs = seed * 0x9E3779B97F4A7C15ULL + 99;
         for (int p = 0; p < MAXP; p++) {
@@ -116,6 +126,7 @@ int main(int argc, char **argv)
         long services = 0, quiet = 0; struct timespec t0; clock_gettime(CLOCK_MONOTONIC, &t0);
         for (;;) {
                 cat_status s = cat_service(&at);
+                if (s == CAT_STATUS_ERROR_MUTEX_LOCK) { sched_yield(); continue; }      /* the call did nothing: try again */
                 services++;
                 if ((services & 1023) == 0) p_write = (srnd() % 4 == 0) ? 100 : 40 + (unsigned)(srnd() % 60);
                 if (atomic_load(&producers_running) == 0) {
@@ -130,10 +141,10 @@ int main(int argc, char **argv)
         for (int p = 0; p < P; p++) { long a = atomic_load(&accepted[p]), d = atomic_load(&delivered[p]); acc += a; del += d; ref += atomic_load(&refused[p]); if (a != d) bad++; }
         printf("{\"producers\":%d,\"cap\":%d,\"seed\":%llu,\"triggers_per_producer\":%ld,\"accepted\":%ld,\"refused_full\":%ld,\"delivered\":%ld,\"producers_with_mismatch\":%d,"
                "\"lock_calls\":%ld,\"handovers\":%ld,\"contended_locks\":%ld,\"service_calls\":%ld,\"holds_entered\":%ld,\"hold_exits_ok\":%ld,\"hold_exits_not_hold\":%ld,\"queries\":%ld,"
-               "\"write_refusals\":%ld,\"lockfree_queries_in_handlers\":%ld,\"bad_lockfree\":%ld,\"per_producer\":[",
+               "\"write_refusals\":%ld,\"lockfree_queries_in_handlers\":%ld,\"bad_lockfree\":%ld,\"lock_failures\":%ld,\"odd_status\":%ld,\"per_producer\":[",
                P, (int)CAT_UNSOLICITED_CMD_BUFFER_SIZE, (unsigned long long)seed, T, acc, ref, del, bad, lock_calls, handovers, atomic_load(&contended), services, holds_entered,
-               atomic_load(&hold_exits_ok), atomic_load(&hold_exits_nothold), atomic_load(&queries), write_refusals, lockfree_queries_in_handlers, bad_lockfree);
+               atomic_load(&hold_exits_ok), atomic_load(&hold_exits_nothold), atomic_load(&queries), write_refusals, lockfree_queries_in_handlers, bad_lockfree, atomic_load(&lock_failures), atomic_load(&odd_status));
         for (int p = 0; p < P; p++) printf("%s[%ld,%ld,%ld]", p ? "," : "", atomic_load(&accepted[p]), atomic_load(&refused[p]), atomic_load(&delivered[p]));
         printf("]}\n");
-        return bad ? 1 : 0;
+        return (bad || atomic_load(&odd_status)) ? 1 : 0;
 }
